@@ -615,7 +615,9 @@ func c17EvGen(k int, r *vg.Rand) c17Input {
 		in.data, how = c17Mutate(r, valid)
 		in.extra = fmt.Sprintf(" mutation=%s of valid evidence list %x", how, valid)
 	default:
-		switch r.Intn(27) {
+		switch r.Intn(30) {
+		case 27, 28, 29: // finding F85: decodable evidence whose decoder used to panic
+			c17EvF85[r.Intn(len(c17EvF85))](&in, hostile, dvePB, lcaPB)
 		case 0:
 			hostile("empty-list", &tmproto.EvidenceList{})
 		case 1:
@@ -757,10 +759,47 @@ func c17EvGen(k int, r *vg.Rand) c17Input {
 	return in
 }
 
-// directed cases (none yet: no defect of this reactor is known)
-var c17EvDirected = []func(in *c17Input, hostile func(string, *tmproto.EvidenceList),
+type c17EvDirectedFn = func(in *c17Input, hostile func(string, *tmproto.EvidenceList),
 	dvePB func(func(*tmproto.DuplicateVoteEvidence)) *tmproto.EvidenceList,
-	lcaPB func(func(*tmproto.LightClientAttackEvidence)) *tmproto.EvidenceList){}
+	lcaPB func(func(*tmproto.LightClientAttackEvidence)) *tmproto.EvidenceList)
+
+// finding F85: light-client-attack evidence, otherwise genuine, whose conflicting block carries a
+// validator set with a total voting power above MaxTotalVotingPower (types.ValidatorSetFromProto
+// used to panic in TotalVotingPower) or no signed header (ValidateBasic used to dereference nil).
+// In this reactor the panic is caught by MConnection._recover (the harness records recv_panic and
+// the peer is stopped); the same bytes inside a proposed block halted the consensus state machine
+// (verif_c17_sm_test.go).
+var c17EvF85 = []c17EvDirectedFn{
+	func(in *c17Input, hostile func(string, *tmproto.EvidenceList), _ func(func(*tmproto.DuplicateVoteEvidence)) *tmproto.EvidenceList,
+		lcaPB func(func(*tmproto.LightClientAttackEvidence)) *tmproto.EvidenceList) {
+		hostile("lca-valset-total-above-max", lcaPB(func(l *tmproto.LightClientAttackEvidence) {
+			vs := l.ConflictingBlock.ValidatorSet
+			extra := *vs.Validators[0]
+			extra.VotingPower = 1
+			vs.Validators[0].VotingPower = types.MaxTotalVotingPower
+			vs.Validators = append(vs.Validators, &extra)
+		}))
+	},
+	func(in *c17Input, hostile func(string, *tmproto.EvidenceList), _ func(func(*tmproto.DuplicateVoteEvidence)) *tmproto.EvidenceList,
+		lcaPB func(func(*tmproto.LightClientAttackEvidence)) *tmproto.EvidenceList) {
+		hostile("lca-valset-power-maxint64", lcaPB(func(l *tmproto.LightClientAttackEvidence) {
+			l.ConflictingBlock.ValidatorSet.Validators[0].VotingPower = math.MaxInt64
+		}))
+	},
+	func(in *c17Input, hostile func(string, *tmproto.EvidenceList), _ func(func(*tmproto.DuplicateVoteEvidence)) *tmproto.EvidenceList,
+		lcaPB func(func(*tmproto.LightClientAttackEvidence)) *tmproto.EvidenceList) {
+		hostile("lca-no-signed-header", lcaPB(func(l *tmproto.LightClientAttackEvidence) { l.ConflictingBlock.SignedHeader = nil }))
+	},
+	func(in *c17Input, hostile func(string, *tmproto.EvidenceList), _ func(func(*tmproto.DuplicateVoteEvidence)) *tmproto.EvidenceList,
+		lcaPB func(func(*tmproto.LightClientAttackEvidence)) *tmproto.EvidenceList) {
+		hostile("lca-valset-negative-power", lcaPB(func(l *tmproto.LightClientAttackEvidence) {
+			l.ConflictingBlock.ValidatorSet.Validators[0].VotingPower = -5
+		}))
+	},
+}
+
+// directed cases: finding F85
+var c17EvDirected = c17EvF85
 
 func c17EvExec(in c17Input, rec *c17Rec) {
 	f := c17EvFixture()
